@@ -189,6 +189,8 @@ inductive Op where
   | freeze (x : Nat)                         -- `freeze(x)` = `FrozenDict(x)`
   | unfreeze (x : Nat)                       -- `unfreeze(x)` (= `x.unfreeze()`)
   | copy (x : Nat) (add : Option Nat)        -- `copy(x, add)` (= `x.copy(add)` on a FrozenDict)
+  | copyView (x : Nat) (add : Nat)           -- `copy(x, M(roots[add]))`, `M` a Mapping that is neither dict nor FrozenDict
+                                             --  (MappingProxyType / ChainMap / UserDict view of a held dict or FrozenDict)
   | pop (x : Nat) (k : Key)                  -- `pop(x, k)` (= `x.pop(k)`); returns (rest, value)
   | pickle (x : Nat)                         -- `__reduce__`: `FrozenDict(x.unfreeze())`
   | treeMap (x : Nat)                        -- `jax.tree_util.tree_map(lambda y: y, x)` (flatten ∘ unflatten)
@@ -322,6 +324,34 @@ def step (w : World) (op : Op) : Except Err World :=
       | none => .error .dangling
     | some (.leaf _) => .error .typeError
     | none => .error .badHandle
+  | .copyView x ai =>
+    match rs[x]?, rs[ai]? with
+    | some (.ref a), some av =>
+      match h[a]? with
+      | some (.frozen _) =>
+        -- `unfreeze(view)` returns the view itself (it is neither a FrozenDict nor a dict), so `{**self, **view}`
+        -- holds the view's values as they are (nested dicts by reference); the *copying constructor*
+        -- `type(self)(...)` is what deep-copies them
+        match dictOf h (.ref a) with
+        | .error e => .error e
+        | .ok (h1, xs) =>
+          match dictOf h1 av with            -- `**view`: keys() + view[k]
+          | .error e => .error e
+          | .ok (h2, ys) =>
+            match mkFrozen h2 (kvUpdate xs ys) with
+            | .error e => .error e
+            | .ok (h3, r) => .ok ⟨h3, rs ++ [r]⟩
+      | some (.dict _ kvs) =>
+        -- `new_dict = tree_map(lambda x: x, x); new_dict.update(view)`: exactly as with a dict argument
+        match mapKvs (deep .tree false (fuelOf h)) h (sortKvs kvs) with
+        | .error e => .error e
+        | .ok (h1, kvs') =>
+          match dictOf h1 av with
+          | .error e => .error e
+          | .ok (h2, ys) => .ok ⟨h2 ++ [.dict false (kvUpdate kvs' ys)], rs ++ [.ref h2.length]⟩
+      | none => .error .dangling
+    | some (.leaf _), some _ => .error .typeError
+    | _, _ => .error .badHandle
   | .pop x k =>
     match rs[x]? with
     | some (.ref a) =>
@@ -530,5 +560,63 @@ mutual
         | none => none
         | some (ts, ls2) => some ((k, t) :: ts, ls2)
 end
+
+/-! ### the `_hash` cache
+
+`FrozenDict._hash` is a per-object memo: `None` until `__hash__` is first called, then the computed
+value for ever.  It is modelled as a side table from FrozenDict addresses to hashes next to the world
+(the slot is not reachable through any API, so it cannot alias anything). -/
+
+structure HWorld where
+  w : World
+  cache : List (Addr × Nat)
+  deriving Repr, Inhabited
+
+def HWorld.init : HWorld := ⟨World.init, []⟩
+
+inductive HOp where
+  | base (op : Op)
+  | hash (x : Nat)          -- `hash(roots[x])`
+  deriving Repr
+
+def cacheGet : List (Addr × Nat) → Addr → Option Nat
+  | [], _ => none
+  | (a, c) :: r, f => if a = f then some c else cacheGet r f
+
+/-- what `__hash__` computes when the cache is empty: XOR over `items()` of `hash((k, v))` -/
+def freshHash (H : HashFns) (h : Heap) (f : Addr) : Option Nat :=
+  (absVal false (fuelOf h) h (.ref f)).bind (treeHash H)
+
+/-- one step; the second component is the value returned by `hash` -/
+def hstep (H : HashFns) (hw : HWorld) : HOp → Except Err (HWorld × Option Nat)
+  | .base op =>
+    match step hw.w op with
+    | .ok w' => .ok (⟨w', hw.cache⟩, none)
+    | .error e => .error e
+  | .hash x =>
+    match hw.w.roots[x]? with
+    | some (.ref f) =>
+      match hw.w.heap[f]? with
+      | some (.frozen _) =>
+        match cacheGet hw.cache f with
+        | some c => .ok (hw, some c)                       -- `return self._hash`
+        | none =>
+          match freshHash H hw.w.heap f with
+          | some c => .ok (⟨hw.w, (f, c) :: hw.cache⟩, some c)
+          | none => .error .typeError                       -- unhashable leaf
+      | some (.dict ..) => .error .typeError                -- dicts are unhashable
+      | none => .error .dangling
+    | some (.leaf l) =>
+      match H.hl l with
+      | some c => .ok (hw, some c)
+      | none => .error .typeError
+    | none => .error .badHandle
+
+def hrun (H : HashFns) : HWorld → List HOp → HWorld
+  | hw, [] => hw
+  | hw, op :: ops =>
+    match hstep H hw op with
+    | .ok (hw', _) => hrun H hw' ops
+    | .error _ => hrun H hw ops
 
 end Flax.Frozen
